@@ -47,7 +47,9 @@ class MPSBackend(EmulatorBackend):
             f"Saving simulation state every {impl.config.autosave_dt} seconds"
         )
 
-        return MPSBackend._run(impl)
+        result = MPSBackend._run(impl)
+        # like a fresh run: hand the results back in register order
+        return impl.permute_results(result, impl.config.optimize_qubit_ordering)
 
     def run(self) -> Results:
         """
